@@ -162,7 +162,7 @@ def _inv_any_call(L):
     return z3.ForAll([j], z3.Implies(z3.And(0 <= j, j < L.i), S.is_schema(ct, M.lat(t, j))), patterns=[M.lat(t, j)])
 
 
-@contract(DECL, "union", props=("C13", "C17"), group="combinators")
+@contract(DECL, "union", props=("C13", "C17", "C06", "C01"), group="combinators")
 def _union(c):
     c.reproducible()      # C17: the schema built does not depend on the interpreter's hash seed
     ct = c.ct
@@ -176,7 +176,8 @@ def _union(c):
     v = z3.Const("uv3", Obj)
     c.ensures("accepts-the-union", lambda r, post: z3.ForAll(
         [v], S.conforms(r, v) == z3.Or(S.conforms(a, v), S.conforms(b, v)), patterns=[S.conforms(r, v)]), ("C13",))
-    c.ensures("is-schema", lambda r, post: z3.And(S.is_schema(ct, r), S.wf(r), S.reach(r)), ("C13",))
+    # (reach includes: the alternatives are flat -- what the representor and the generator assume of every union)
+    c.ensures("is-schema", lambda r, post: z3.And(S.is_schema(ct, r), S.wf(r), S.reach(r)), ("C13", "C06", "C01"))
 
 
 # ----------------------------------------------------------------------------- alias
